@@ -10,6 +10,7 @@ import (
 	"sort"
 	"strings"
 	"sync"
+	"time"
 
 	"github.com/nlnwa/whatwg-url/canonicalizer"
 	"github.com/nlnwa/whatwg-url/url"
@@ -78,25 +79,24 @@ var families = []family{
 	}, "getters"},
 	{"canon-gsb-many-segments", func(n int) string { return "http://h" + strings.Repeat("/%2561", n/6) }, "canon-gsb"},
 	{"canon-gsb-long-query", func(n int) string { return "http://h/?" + strings.Repeat("a=%2562&", n/8) }, "canon-gsb"},
+	{"invalid-bytes-path-accept-invalid", func(n int) string { return "http://h/" + strings.Repeat("\xf0\x9f", n/2) }, "parse-accept-invalid"},
+	{"invalid-bytes-host-accept-invalid", func(n int) string { return "http://" + strings.Repeat("\xff", n) + "/" }, "parse-accept-invalid"},
+	{"invalid-bytes-query-accept-invalid", func(n int) string { return "http://h/?" + strings.Repeat("a\xfe", n/2) }, "parse-accept-invalid"},
+	{"invalid-bytes-gsb", func(n int) string { return strings.Repeat("\xf0\x9f", n/2) }, "canon-gsb"},
+	{"invalid-bytes-path-gsb", func(n int) string { return "http://h/" + strings.Repeat("\xf0\x9f/", n/3) }, "canon-gsb"},
+	{"invalid-bytes-semantic", func(n int) string { return "http://h/#" + strings.Repeat("\xc3", n) }, "canon-semantic"},
+	{"invalid-bytes-default-parser", func(n int) string { return "http://h/" + strings.Repeat("\xf0\x9f", n/2) }, "parse"},
 	{"canon-semantic-many-segments", func(n int) string { return "http://h" + strings.Repeat("/a", n/2) + "?b=1&a=2" }, "canon-semantic"},
 }
 
-func measure(f family, n int) (alloc, mallocs uint64) {
-	in := f.Gen(n)
-	var u *url.Url
-	base, _ := url.Parse("http://h/a/b/c")
-	if f.Op != "parse" && f.Op != "resolve" && !strings.HasPrefix(f.Op, "canon") {
-		u, _ = url.Parse(in)
-		if u == nil {
-			return 0, 0
-		}
-	}
-	runtime.GC()
-	var m0, m1 runtime.MemStats
-	runtime.ReadMemStats(&m0)
+var acceptInvalidParser = url.NewParser(url.WithAcceptInvalidCodepoints(), url.WithLaxHostParsing())
+
+func runOp(f family, in string, u *url.Url, base *url.Url) {
 	switch f.Op {
 	case "parse":
 		_, _ = url.Parse(in)
+	case "parse-accept-invalid":
+		_, _ = acceptInvalidParser.Parse(in)
 	case "resolve":
 		_, _ = base.Parse(in)
 	case "href":
@@ -119,8 +119,49 @@ func measure(f family, n int) (alloc, mallocs uint64) {
 	case "canon-semantic":
 		_, _ = canonicalizer.Semantic.Parse(in)
 	}
+}
+
+func prepOp(f family, n int) (in string, u *url.Url, base *url.Url, ok bool) {
+	in = f.Gen(n)
+	base, _ = url.Parse("http://h/a/b/c")
+	if f.Op != "parse" && f.Op != "parse-accept-invalid" && f.Op != "resolve" && !strings.HasPrefix(f.Op, "canon") {
+		u, _ = url.Parse(in)
+		if u == nil {
+			return in, nil, base, false
+		}
+	}
+	return in, u, base, true
+}
+
+func measure(f family, n int) (alloc, mallocs uint64) {
+	in, u, base, ok := prepOp(f, n)
+	if !ok {
+		return 0, 0
+	}
+	runtime.GC()
+	var m0, m1 runtime.MemStats
+	runtime.ReadMemStats(&m0)
+	runOp(f, in, u, base)
 	runtime.ReadMemStats(&m1)
 	return m1.TotalAlloc - m0.TotalAlloc, m1.Mallocs - m0.Mallocs
+}
+
+// the work done: wall time of the operation, the minimum of three runs (a fresh parse for the stateful operations)
+func timeOp(f family, n int) time.Duration {
+	best := time.Duration(0)
+	for k := 0; k < 3; k++ {
+		in, u, base, ok := prepOp(f, n)
+		if !ok {
+			return 0
+		}
+		t := time.Now()
+		runOp(f, in, u, base)
+		d := time.Since(t)
+		if k == 0 || d < best {
+			best = d
+		}
+	}
+	return best
 }
 
 func costCommand(args []string) bool {
@@ -138,6 +179,9 @@ func costCommand(args []string) bool {
 		Mallocs4   uint64  `json:"mallocs_4n"`
 		AllocRatio float64 `json:"alloc_ratio"`
 		MallocRat  float64 `json:"mallocs_ratio"`
+		TimeN      int64   `json:"time_ns_16n"`
+		Time4N     int64   `json:"time_ns_64n"`
+		TimeRatio  float64 `json:"time_ratio"`
 	}
 	var rows []row
 	for _, f := range families {
@@ -150,6 +194,12 @@ func costCommand(args []string) bool {
 		}
 		if m1 > 0 {
 			r.MallocRat = float64(m4) / float64(m1)
+		}
+		// the work done, at sizes where a quadratic family takes long enough to be told from noise (16n and 64n)
+		t1, t4 := timeOp(f, 16*n), timeOp(f, 64*n)
+		r.TimeN, r.Time4N = t1.Nanoseconds(), t4.Nanoseconds()
+		if t1 > 0 {
+			r.TimeRatio = float64(t4) / float64(t1)
 		}
 		rows = append(rows, r)
 	}
